@@ -197,13 +197,14 @@ func ManageDeployment(client runtimeclient.Client, daemonset *datadoghqv1alpha1.
 				datadoghqv1alpha1.ExtendedDaemonSetReplicaSetNameLabelKey:   params.Replicaset.GetName(),
 			},
 		}
-		if err = client.List(context.TODO(), canaryPods, listOptions...); err != nil {
-			params.Logger.Error(err, "Couldn't get canary pods")
+		// use dedicated error variables: `err` holds the result of the pods clean-up, which is returned to the caller
+		if errList := client.List(context.TODO(), canaryPods, listOptions...); errList != nil {
+			params.Logger.Error(errList, "Couldn't get canary pods")
 			result.Result.Requeue = true
 		} else {
 			for _, pod := range canaryPods.Items {
-				if err = deletePodLabel(params.Logger, client, &pod, datadoghqv1alpha1.ExtendedDaemonSetReplicaSetCanaryLabelKey); err != nil {
-					params.Logger.Error(err, fmt.Sprintf("Couldn't remove canary label from pod '%s/%s'", pod.GetNamespace(), pod.GetName()))
+				if errLabel := deletePodLabel(params.Logger, client, &pod, datadoghqv1alpha1.ExtendedDaemonSetReplicaSetCanaryLabelKey); errLabel != nil {
+					params.Logger.Error(errLabel, fmt.Sprintf("Couldn't remove canary label from pod '%s/%s'", pod.GetNamespace(), pod.GetName()))
 					result.Result.Requeue = true
 				}
 			}
